@@ -4,9 +4,11 @@
 package c18net
 
 import (
+	"context"
 	"errors"
 	"fmt"
 	"io"
+	"net"
 	"net/http"
 	"net/netip"
 	"net/url"
@@ -228,4 +230,73 @@ func SplitHostPort(hostport string) (hostname, port string, hasPort bool) {
 // SameURL compares two absolute URLs on the parts that decide where a request goes.
 func SameURL(a, b *url.URL) bool {
 	return a.Scheme == b.Scheme && a.Host == b.Host && a.EscapedPath() == b.EscapedPath() && a.RawQuery == b.RawQuery && (a.User == nil) == (b.User == nil)
+}
+
+// ---------------------------------------------------------------------------------------------------------------------
+// PipeWeb lets a REAL *http.Transport talk to the scripted Net without sockets: install DialContext / DialTLSContext
+// (the latter hands the transport an "already encrypted" connection, so no TLS handshake happens) and every connection is an
+// in-memory pipe served by an HTTP/1.1 server that replays the request into Net (which records it and answers from the script).
+
+// PipeWeb adapts a Net to dial functions.
+type PipeWeb struct {
+	Net *Net
+}
+
+type pipeListener struct {
+	ch   chan net.Conn
+	once sync.Once
+	done chan struct{}
+}
+
+func (l *pipeListener) Accept() (net.Conn, error) {
+	select {
+	case c, ok := <-l.ch:
+		if ok {
+			return c, nil
+		}
+	case <-l.done:
+	}
+	return nil, errors.New("c18net: pipe listener closed")
+}
+func (l *pipeListener) Close() error   { l.once.Do(func() { close(l.done) }); return nil }
+func (l *pipeListener) Addr() net.Addr { return pipeAddr{} }
+
+type pipeAddr struct{}
+
+func (pipeAddr) Network() string { return "pipe" }
+func (pipeAddr) String() string  { return "pipe" }
+
+// Dial returns a dial function for the given URL scheme ("https" for Transport.DialTLSContext, "http" for DialContext).
+func (p *PipeWeb) Dial(scheme string) func(ctx context.Context, network, addr string) (net.Conn, error) {
+	return func(_ context.Context, _, addr string) (net.Conn, error) {
+		cli, srv := net.Pipe()
+		l := &pipeListener{ch: make(chan net.Conn, 1), done: make(chan struct{})}
+		l.ch <- srv
+		server := &http.Server{Handler: http.HandlerFunc(func(w http.ResponseWriter, r *http.Request) {
+			u := &url.URL{Scheme: scheme, Host: r.Host}
+			if ru, err := url.ParseRequestURI(r.RequestURI); err == nil {
+				u.Path, u.RawPath, u.RawQuery = ru.Path, ru.RawPath, ru.RawQuery
+			}
+			resp, err := p.Net.RoundTrip(&http.Request{Method: r.Method, URL: u, Host: r.Host, Header: r.Header})
+			w.Header().Set("Connection", "close")
+			if err != nil {
+				w.WriteHeader(http.StatusBadGateway)
+				return
+			}
+			for k, vs := range resp.Header {
+				for _, v := range vs {
+					w.Header().Add(k, v)
+				}
+			}
+			w.WriteHeader(resp.StatusCode)
+			_, _ = io.Copy(w, resp.Body)
+		}), ConnState: func(_ net.Conn, st http.ConnState) {
+			if st == http.StateClosed || st == http.StateHijacked {
+				_ = l.Close()
+			}
+		}}
+		go func() { _ = server.Serve(l) }()
+		_ = addr
+		return cli, nil
+	}
 }
